@@ -36,6 +36,7 @@ import (
 	"github.com/lindb/lindb/coordinator/broker"
 	"github.com/lindb/lindb/flow"
 	"github.com/lindb/lindb/models"
+	"github.com/lindb/lindb/pkg/collections"
 	"github.com/lindb/lindb/pkg/timeutil"
 	protoCommonV1 "github.com/lindb/lindb/proto/gen/v1/common"
 	"github.com/lindb/lindb/query/tracker"
@@ -160,8 +161,13 @@ func (ctx *RootMetricContext) makeResultSet() (resultSet *commonmodels.ResultSet
 			// do expression eval
 			expression.Eval(it)
 
+			fields := expression.ResultSet()
+			if !hasValue(fields) {
+				// a group without any value in the query range takes no part in order by/limit
+				continue
+			}
 			// result order by/limit
-			orderBy.Push(aggregation.NewOrderByRow(it.Tags(), expression.ResultSet()))
+			orderBy.Push(aggregation.NewOrderByRow(it.Tags(), fields))
 		}
 
 		rows := orderBy.ResultSet()
@@ -276,6 +282,16 @@ func (ctx *RootMetricContext) makeResultSet() (resultSet *commonmodels.ResultSet
 		resultSet.Stats = ctx.stats
 	}
 	return resultSet, nil
+}
+
+// hasValue checks if any field of the group has a value.
+func hasValue(fields map[string]*collections.FloatArray) bool {
+	for _, values := range fields {
+		if values != nil && !values.IsEmpty() {
+			return true
+		}
+	}
+	return false
 }
 
 // buildOrderBy builds order by container.
